@@ -169,6 +169,35 @@ def check_masked_nohist(rep, mod):
                 key='R-MASKED-NOHIST|%s' % fn, sample='%s: first position after a reset is a literal (has_hist == IGZIP_NO_HIST guard)' % fn)
 
 
+def check_hashmask_field(rep, mod):
+    """which part of a hash table is valid is decided per segment: set_hash_mask may shrink state->hash_mask and reset_match_history then initialises only the buckets below it"""
+    R = rep.rule('R-HASHMASK-FIELD', 'in the portable match finders every index into a table of 16-bit hash buckets that is formed by AND-ing a hash value with a mask takes that mask from '
+                 'state->hash_mask (data-flow: the mask operand depends on that field only), never from a constant or another field: buckets above the mask of the current segment, which no reset initialised, are not '
+                 'looked up', floor=8, unit='masked hash indices')
+    off = c19.field_offsets('struct isal_zstream', ['internal_state.hash_mask'])['internal_state.hash_mask']
+    for fn in sorted(FINDERS):
+        f = mod.funcs.get(fn)
+        if f is None:
+            continue
+        P = irrules.prov(mod, f)
+        for g in [i for i in f.all_insns() if i.op == 'getelementptr' and (i.ty or '') == 'i16']:
+            idx = [x.split(' ')[-1] for x in (g.extra or {}).get('idx', [])]
+            for ix in idx:
+                if not ix.startswith('%'):
+                    continue
+                d = f.defs.get(strip_casts(f, ix))
+                if d is None or d.op != 'and':
+                    continue
+                R.instance()
+                ok = False
+                for m_ in d.ops:
+                    deps = P.deps(m_)
+                    if deps and all(x == ('mem', ('param', 0, off)) for x in deps):
+                        ok = True
+                R.check(ok, mod.where(f, g), '%s indexes a hash table with a value masked by %s, which does not come from state->hash_mask: when the segment runs with a smaller mask the buckets above it hold whatever '
+                        'the context contained before' % (fn, ' / '.join(d.ops)), key='R-HASHMASK-FIELD|%s|%s' % (fn, g.line or 0), sample='%s: bucket index & state->hash_mask' % fn)
+
+
 def check_mask_range(rep, config):
     R = rep.rule('R-DISTMASK-RANGE[%s]' % config, 'interval analysis of set_dist_mask over every hist_bits: afterwards hist_bits in [1,15] and dist_mask <= min(2^15, IGZIP_HIST_SIZE) - 1; _zlib_header_in_buffer advertises CINFO >= hist_bits - 8',
                  floor=1, unit='functions')
@@ -442,6 +471,7 @@ def main(tier):
     S = c19.summaries(mod)
     rep.attempt(check_distguard_c, rep, mod)
     rep.attempt(check_masked_nohist, rep, mod)
+    rep.attempt(check_hashmask_field, rep, mod)
     for c in CONFIGS:
         check_mask_range(rep, c)
     rep.attempt(check_dict, rep, mod, S)
